@@ -3,21 +3,39 @@ Import ListNotations.
 From TD Require Import Model.Keys Proofs.KeysP.
 Open Scope string_scope.
 
-(* unravel_keys: the two paths do NOT agree (finding D1804) ... *)
-Theorem unravel_keys_dual_refuted : exists ks, py_unravel_keys ks <> cpp_unravel_keys ks.
+(* unravel_keys after repair D1804: the Python branch is the one-argument alias of unravel_key, as the native binding is:
+   same result on every argument list (any arity, valid keys or not) *)
+Theorem unravel_keys_dual ks : py_unravel_keys ks = cpp_unravel_keys ks.
+Proof.
+  unfold py_unravel_keys, py_unravel_keys_gen, cpp_unravel_keys. destruct ks as [|k [|k2 r]]; try reflexivity.
+  now rewrite unravel_key_dual.
+Qed.
+
+(* what the alias means: exactly one argument, and the result is that of unravel_key *)
+Theorem unravel_keys_is_unravel_key k :
+  cpp_unravel_keys [k] = match cpp_unravel_key k with RRaise => KRaise | r => KOne r end
+  /\ (forall ks, List.length ks <> 1 -> cpp_unravel_keys ks = KRaise /\ py_unravel_keys ks = KRaise).
+Proof.
+  split; [reflexivity|]. intros ks H. destruct ks as [|a [|b r]]; [split; reflexivity|now contradiction H|split; reflexivity].
+Qed.
+
+(* ---- the code before the repair ([repaired := false]): the two paths did NOT agree (finding D1804) ... *)
+Theorem unravel_keys_unrepaired_refuted : exists ks, py_unravel_keys_unrepaired ks <> cpp_unravel_keys ks.
 Proof. exists [KS "a"]. vm_compute. discriminate. Qed.
 
-(* ... on no accepted input at all: the native path returns the bare key, the Python path a tuple of keys *)
-Theorem unravel_keys_never_agree ks : cpp_unravel_keys ks <> KRaise -> py_unravel_keys ks <> cpp_unravel_keys ks.
+(* ... on no accepted input at all: the native path returns the bare key, the old Python path a tuple of keys *)
+Theorem unravel_keys_unrepaired_never_agree ks :
+  cpp_unravel_keys ks <> KRaise -> py_unravel_keys_unrepaired ks <> cpp_unravel_keys ks.
 Proof.
-  unfold cpp_unravel_keys, py_unravel_keys. intros H. destruct ks as [|k [|k2 r]]; [now contradiction H| |now contradiction H].
+  unfold cpp_unravel_keys, py_unravel_keys_unrepaired, py_unravel_keys_gen. intros H.
+  destruct ks as [|k [|k2 r]]; [now contradiction H| |now contradiction H].
   destruct (py_unravel_key_list [k]); destruct (cpp_unravel_key k); try discriminate. now contradiction H.
 Qed.
 
-(* what does hold: on one argument the Python result is the 1-tuple around the native result, and both reject the same keys *)
-Theorem unravel_keys_partial k :
-  py_unravel_keys [k] = match cpp_unravel_keys [k] with KOne r => KMany [r] | other => other end.
+(* what did hold: on one argument the old Python result was the 1-tuple around the native result *)
+Theorem unravel_keys_unrepaired_partial k :
+  py_unravel_keys_unrepaired [k] = match cpp_unravel_keys [k] with KOne r => KMany [r] | other => other end.
 Proof.
-  unfold py_unravel_keys, cpp_unravel_keys, py_unravel_key_list. cbn [map sequence_res].
+  unfold py_unravel_keys_unrepaired, py_unravel_keys_gen, cpp_unravel_keys, py_unravel_key_list. cbn [map sequence_res].
   rewrite unravel_key_dual. destruct (cpp_unravel_key k); reflexivity.
 Qed.
